@@ -407,4 +407,43 @@ func TestReducers(t *testing.T) {
 			}
 		}
 	}
+	// extrema over the whole finite range: every element far below -2^63, far above 2^63, near the largest finite
+	// magnitudes, or denormal (an accumulator seeded with anything but the infinities shows here); Max / Min return an
+	// element of the operand, so the comparison is exact
+	scales := []struct {
+		name   string
+		lo, hi float64
+	}{{"below-int64", -9e19, -1e19}, {"above-int64", 1e19, 9e19}, {"near-max-negative", -1.7e308, -1e308}, {"near-max-positive", 1e308, 1.7e308},
+		{"denormal-positive", 5e-324, 1e-320}, {"denormal-negative", -1e-320, -5e-324}}
+	for _, shape := range [][]int{{}, {1}, {3}, {2, 3}, {2, 1, 2}} {
+		for _, sc := range scales {
+			a := randRef(rng, shape, sc.lo, sc.hi)
+			x := toT(a, false)
+			for _, name := range []string{"Max", "Min"} {
+				w := whole[name]
+				guard(r, "whole:"+name+":extreme", func() {
+					if got, want := w.call(x), w.stat(a.Data); got != want {
+						r.fail("whole:"+name+":extreme", fmt.Sprintf("%s shape %v: got %v want %v", sc.name, shape, got, want))
+					} else {
+						r.ok(fmt.Sprintf("%s %s %v", name, sc.name, shape))
+					}
+				})
+			}
+			for d := 0; d < len(shape); d++ {
+				for _, name := range []string{"MaxAlong", "MinAlong"} {
+					al := alongs[name]
+					guard(r, "along:"+name+":extreme", func() {
+						got, err := al.call(x, d)
+						if err != nil {
+							r.fail("along:"+name+":extreme", fmt.Sprintf("%s shape %v dim %d: %v", sc.name, shape, d, err))
+						} else if msg := eqRef(got, reduceAlong(a, d, al.stat), 0); msg != "" {
+							r.fail("along:"+name+":extreme", fmt.Sprintf("%s shape %v dim %d: %s", sc.name, shape, d, msg))
+						} else {
+							r.ok(fmt.Sprintf("%s %s %v dim %d", name, sc.name, shape, d))
+						}
+					})
+				}
+			}
+		}
+	}
 }
